@@ -196,9 +196,116 @@ fn run(sc: &Value, trace: Option<Vec<(String, u16)>>, pool: &Arc<rayon::ThreadPo
     Some(o)
 }
 
+/// C11 witness on the real crate and real rayon: `w` resource-less systems share one stage; every one
+/// waits (bounded) until all `w` are inside `run`.  With a pool of `w` idle threads this must succeed.
+fn rendezvous_witness(frag: Option<String>) -> i32 {
+    use shred::{BatchController, System};
+    struct Meet {
+        state: Arc<(Mutex<(usize, u64)>, Condvar)>,
+        w: usize,
+        failed: Arc<AtomicBool>,
+        round: Arc<AtomicU32>,
+    }
+    impl<'a> System<'a> for Meet {
+        type SystemData = ();
+        fn run(&mut self, _: ()) {
+            let (m, cv) = &*self.state;
+            let round = self.round.load(Ordering::SeqCst) as u64;
+            let mut g = m.lock().unwrap();
+            if g.1 != round {
+                *g = (0, round);
+            }
+            g.0 += 1;
+            cv.notify_all();
+            let deadline = Instant::now() + Duration::from_secs(4);
+            while g.0 < self.w && g.1 == round {
+                let left = deadline.saturating_duration_since(Instant::now());
+                if left.is_zero() || self.failed.load(Ordering::SeqCst) {
+                    self.failed.store(true, Ordering::SeqCst);
+                    break;
+                }
+                g = cv.wait_timeout(g, left).unwrap().0;
+            }
+        }
+    }
+    struct Ctrl;
+    impl<'a, 'b, 'c> BatchController<'a, 'b, 'c> for Ctrl {
+        type BatchSystemData = ();
+        fn run(&mut self, world: &'c World, dispatcher: &mut Dispatcher<'a, 'b>) {
+            dispatcher.dispatch(world);
+        }
+    }
+    let t0 = Instant::now();
+    let mut results: Vec<Value> = Vec::new();
+    let mut failures = 0;
+    for w in [2usize, 3, 4, 6, 8] {
+        for mode in ["dispatch", "async", "batch-inner"] {
+            for attempt in 0..2 {
+                let failed = Arc::new(AtomicBool::new(false));
+                let round = Arc::new(AtomicU32::new(0));
+                let state = Arc::new((Mutex::new((0usize, 0u64)), Condvar::new()));
+                let pool = Arc::new(rayon::ThreadPoolBuilder::new().num_threads(w).build().unwrap());
+                let mut b = DispatcherBuilder::new();
+                b.add_pool(pool.clone());
+                let mk = |i: usize| (Meet { state: state.clone(), w, failed: failed.clone(), round: round.clone() }, format!("m{}", i));
+                if mode == "batch-inner" {
+                    let mut inner = DispatcherBuilder::new();
+                    for i in 0..w {
+                        let (s, n) = mk(i);
+                        inner.add(s, &n, &[]);
+                    }
+                    b.add_batch::<Ctrl>(Ctrl, inner, "batch", &[]);
+                } else {
+                    for i in 0..w {
+                        let (s, n) = mk(i);
+                        b.add(s, &n, &[]);
+                    }
+                }
+                if mode == "async" {
+                    let mut ad = b.build_async(World::empty());
+                    for r in 1..=2 {
+                        round.store(r, Ordering::SeqCst);
+                        ad.dispatch();
+                        ad.wait();
+                    }
+                } else {
+                    let mut d = b.build();
+                    let world = World::empty();
+                    for r in 1..=2 {
+                        round.store(r, Ordering::SeqCst);
+                        d.dispatch(&world);
+                    }
+                }
+                let bad = failed.load(Ordering::SeqCst);
+                if !bad || attempt == 1 {
+                    results.push(json!({"width": w, "pool_threads": w, "mode": mode, "all_inside_run_at_once": !bad}));
+                    if bad {
+                        failures += 1;
+                    }
+                    break;
+                }
+            }
+        }
+    }
+    let out = json!({"engine":"E4 real-rayon witness","what":"rendezvous of w side-by-side systems on the unmodified crate and a real rayon pool of w threads (bounded wait of 4 s, one retry), 2 dispatches","configurations": results.len(), "failures": failures, "results": results, "wall_s": t0.elapsed().as_secs_f64()});
+    if let Some(p) = frag {
+        std::fs::write(p, serde_json::to_string_pretty(&out).unwrap()).unwrap();
+    }
+    println!("E4 real-rayon rendezvous witness: configurations={} failures={} wall={:.1}s", results.len(), failures, t0.elapsed().as_secs_f64());
+    if failures > 0 {
+        3
+    } else {
+        0
+    }
+}
+
 fn main() {
     let args: Vec<String> = std::env::args().collect();
-    let path = args.get(1).expect("usage: rr <traces.json> [--frag out.json] [--threads n]");
+    if args.get(1).map(|s| s.as_str()) == Some("--rendezvous") {
+        let frag = args.iter().position(|a| a == "--frag").and_then(|i| args.get(i + 1).cloned());
+        std::process::exit(rendezvous_witness(frag));
+    }
+    let path = args.get(1).expect("usage: rr <traces.json> [--frag out.json] | rr --rendezvous [--frag out.json]");
     let frag = args.iter().position(|a| a == "--frag").and_then(|i| args.get(i + 1).cloned());
     let txt = std::fs::read_to_string(path).expect("read traces");
     let items: Vec<Value> = serde_json::from_str(&txt).expect("parse traces");
